@@ -116,11 +116,36 @@ def rule_sync(ctx):
             if isinstance(x, ast.Assign) and 'ChannelList(' in norm(x.value):
                 for tg in x.targets:
                     wrapped |= set(U.names_in(tg))
-        raw = sorted({n_ for b in walk_local(t.node) if isinstance(b, (ast.BinOp, ast.UnaryOp)) for n_ in set(U.names_in(b)) & params} - wrapped)
+        # an operator with a unit-valued operand (self, or a local computed from it) expands a list on the other side through the
+        # unit's own (reflected) operator; only arithmetic among the parameters themselves meets a bare Python list
+        unitvals = {'self'}
+        grew = True
+        while grew:
+            grew = False
+            for x in walk_local(t.node):
+                if isinstance(x, ast.Assign) and set(U.names_in(x.value)) & unitvals:
+                    for tg in x.targets:
+                        for n_ in U.names_in(tg):
+                            if n_ not in unitvals and n_ not in params:
+                                unitvals.add(n_)
+                                grew = True
+        raw = sorted({n_ for b in walk_local(t.node) if isinstance(b, (ast.BinOp, ast.UnaryOp)) and not (set(U.names_in(b)) & unitvals)
+                      for n_ in set(U.names_in(b)) & params} - wrapped)
         if raw or name in ('range', 'unipolar', 'bipolar'):
             ctx.ob('C03.sync', f'{t.fq}:list-parameters', not raw,
                    f'UGen.{name} computes on its parameter(s) {raw} with Python operators: a list there (nested list argument of '
                    f'ChannelList.{name}, or a list given to the unit itself) raises TypeError instead of expanding', t.node, t.module)
+    # ... and the other way round: every public instance method UGen defines for graph building has a channel-list sibling, otherwise a
+    # list raises (or falls through to the numeric kernels) where each single unit works
+    n = 0
+    for name, f in sorted(ug.methods.items()):
+        if name.startswith('_') or f.decorators:      # plain instance methods only (no classmethods, properties)
+            continue
+        n += 1
+        ctx.ob('C03.sync', f'{ug.fq}.{name}:has-channel-list-sibling', name in cl.methods,
+               f'UGen.{name} has no ChannelList.{name}: ChannelList([a, b]).{name}(...) is not [a.{name}(...), b.{name}(...)]', f.node, ug.module,
+               nontrivial=False)
+    ctx.require(n >= 30, 'C03.sync', f'only {n} public UGen methods found')
     md = cl.methods['madd']
     ctx.ob('C03.sync', f'{cl.module.name}:ChannelList.madd:zip', 'MulAdd.new(*i) for i in utl.flop([self, mul, add])' in full(md.node),
            'madd builds one MulAdd per row of flop([channels, mul, add])', md.node, cl.module)
@@ -384,8 +409,27 @@ def rule_core(ctx):
            'a tuple or str given to ChannelList is one channel', init.node, cl.module)
 
 
+def rule_live(ctx):
+    ctx.rule('C03.core', 'the value a channel list hands to the argument normalisation of the constructors (UGenSequence._param_value) is the '
+                         'list itself, not a copy taken at construction: constructors and `unit op list` expand over the same contents as '
+                         '`list op unit`, the convenience methods and Out do, also after append/extend/item assignment')
+    cl = ctx.repo.cls('sc3.synth.ugen:ChannelList')
+    init = cl.methods.get('__init__')
+    ctx.require(init is not None, 'C03.core', 'ChannelList.__init__ vanished')
+    regs = [c for c in U.calls(init.node) if isinstance(c.func, ast.Attribute) and c.func.attr == '__init__'
+            and ('UGenSequence' in norm(c.func.value) or 'UGenParameter' in norm(c.func.value))]
+    prop = cl.properties.get('_param_value') if hasattr(cl, 'properties') else None
+    by_prop = prop is not None and [norm(r.value) for r in walk_local(prop.node) if isinstance(r, ast.Return)] == ['self']
+    args = [norm(a) for c in regs for a in c.args if norm(a) != 'self' or 'UGenParameter' in norm(c.func.value)]
+    by_init = bool(regs) and all([norm(a) for a in c.args][-1:] == ['self'] for c in regs)
+    ctx.ob('C03.core', f'{cl.fq}.__init__:parameter-value-is-the-list', by_prop or by_init,
+           f'ChannelList registers {[norm(c)[:70] for c in regs]} as its parameter value: anything but the list itself (a copy, a tuple) freezes '
+           f'what the constructors see at construction time', init.node, cl.module)
+
+
 def run(ctx):
     rule_shadow(ctx)
+    rule_live(ctx)
     # an expanded arithmetic unit re-derives its rate from its own inputs (shared clause with C01.rate): otherwise channel i of an
     # expanded MulAdd is not what the single call with element i returns
     ma = ctx.repo.try_func('sc3.synth.ugen:MulAdd._init_ugen')
@@ -401,6 +445,10 @@ def run(ctx):
 
 
 MUTANTS = [
+    dict(rule='C03.sync', name='(fix reverted) UGen.sanitize has no channel-list sibling', file='sc3/synth/ugen.py',
+         old="    def sanitize(self):\n        return self._multichannel_perform('sanitize')\n\n", new=""),
+    dict(rule='C03.core', name='a channel list registers a copy of itself as its parameter value (seed C03-i)', file='sc3/synth/ugen.py',
+         old="        super(gpp.UGenSequence, self).__init__(self)\n", new="        super(gpp.UGenSequence, self).__init__(list(self))\n"),
     dict(rule='C03.sync', name='UGen.blend shadows the pan module (fix reverted)', file='sc3/synth/ugen.py',
          old="            pos = bi.linlin(frac, 0.0, 1.0, -1.0, 1.0)  # Not pan, the module.\n            if self.rate == 'audio':\n                return pan.XFade2.ar(self, other, pos)",
          new="            pan = bi.linlin(frac, 0.0, 1.0, -1.0, 1.0)\n            if self.rate == 'audio':\n                return pan.XFade2.ar(self, other, pan)"),
